@@ -315,6 +315,7 @@ func c19PresenceGuards(c *cx, f *eng.Fn) {
 			}
 		}
 		for _, guard := range guards {
+			guard = resolveBool(f, guard)
 			var conj []ast.Expr
 			var split func(e ast.Expr)
 			split = func(e ast.Expr) {
